@@ -1700,7 +1700,8 @@ def history_round(chk, rng, model, nseq, rnd, t0):
     # targeted: every operation once directly after a state-heavy prefix
     heavy = [o for o in ops if o["k"] in ("parse", "compare")][:: max(1, len(ops) // 12)]
     for o in ops:
-        seqs.append([rng.choice(heavy), o])
+        if "fam" not in o or chk.thorough:      # family members are paired exhaustively below
+            seqs.append([rng.choice(heavy), o])
     # exhaustive ordered pairs inside each family that shares a cache or a parser singleton
     fam = {}
     for o in ops:
@@ -1730,6 +1731,9 @@ def history_round(chk, rng, model, nseq, rnd, t0):
         for a in members:
             if len(members) > 14 and not chk.thorough and a["k"] not in ("getparser", "compare", "parse"):
                 continue      # quick tier, big family: only the cheap kinds as the first operation
+            if key == "rep:dtd" and not chk.thorough and not (
+                    a["k"] == "compare" and "android-dtd" in (extra_of(a) or ())):
+                continue      # quick tier: an android-dtd comparison first, then every DTD operation
             if key.startswith("empty:") and not chk.thorough and not a.get("lead"):
                 continue      # quick tier: a non-empty file first, then every empty-file operation
             for b in members:
